@@ -84,6 +84,21 @@ func runC19(c *Ctx) {
 		ok, why := true, ""
 		sawR, sawN := false, false
 		for _, p := range ps {
+			if s.timeoutArg >= 0 && len(armsOf(p)) == 0 && p.End == EndReturn {
+				// an un-timed transfer is allowed exactly for timeout <= 0
+				tp := ToPoly(paramOf(fi, s.timeoutArg))
+				exact := false
+				for _, cd := range p.Conds {
+					if pl, kind, isInt := cd.Rel().IntNorm(); isInt && kind == ">" {
+						if k, isC := polyConst(1).Add(tp, -1).Add(pl, -1).IsConst(); isC && k >= 0 {
+							exact = true
+						}
+					}
+				}
+				if !exact {
+					ok, why = false, "a path transfers without a time limit although timeout <= 0 has not been established on it: a positive timeout is ignored"
+				}
+			}
 			type rc struct{ val, ok *Term }
 			var recvs []rc
 			for i := range p.Events {
@@ -127,6 +142,9 @@ func runC19(c *Ctx) {
 					ok, why = false, "a path that consumed nothing does not return (zero,false)"
 				}
 				if s.timeoutArg >= 0 {
+					if !positiveTimeoutOnPath(p, paramOf(fi, s.timeoutArg)) {
+						ok, why = false, "a path gives up without having established timeout > 0: a zero or negative timeout must wait without limit"
+					}
 					for _, cd := range p.Conds {
 						rl := cd.Rel()
 						if rl.B != nil && isParam(rl.A, s.timeoutArg) && rl.B.IsConst("0") && (rl.Op == "<=" || rl.Op == "<" || rl.Op == "==") {
@@ -365,6 +383,21 @@ func c19Senders(c *Ctx, rule string, onlyTimeout bool) {
 		ok, why := true, ""
 		sawT, sawF := false, false
 		for _, p := range ps {
+			if s.timeoutArg >= 0 && len(armsOf(p)) == 0 && p.End == EndReturn {
+				// an un-timed transfer is allowed exactly for timeout <= 0
+				tp := ToPoly(paramOf(fi, s.timeoutArg))
+				exact := false
+				for _, cd := range p.Conds {
+					if pl, kind, isInt := cd.Rel().IntNorm(); isInt && kind == ">" {
+						if k, isC := polyConst(1).Add(tp, -1).Add(pl, -1).IsConst(); isC && k >= 0 {
+							exact = true
+						}
+					}
+				}
+				if !exact {
+					ok, why = false, "a path transfers without a time limit although timeout <= 0 has not been established on it: a positive timeout is ignored"
+				}
+			}
 			n := 0
 			for i := range p.Events {
 				e := &p.Events[i]
@@ -414,6 +447,9 @@ func c19Senders(c *Ctx, rule string, onlyTimeout bool) {
 				}
 				// with a non-positive timeout there must be no limit: no untransferred path
 				if s.timeoutArg >= 0 {
+					if !positiveTimeoutOnPath(p, paramOf(fi, s.timeoutArg)) {
+						ok, why = false, "a path gives up without having established timeout > 0: a zero or negative timeout must wait without limit"
+					}
 					for _, cd := range p.Conds {
 						rl := cd.Rel()
 						if rl.B != nil && isParam(rl.A, s.timeoutArg) && rl.B.IsConst("0") && (rl.Op == "<=" || rl.Op == "<" || rl.Op == "==") {
@@ -446,4 +482,17 @@ func c19Senders(c *Ctx, rule string, onlyTimeout bool) {
 			o.Breaks = "a value reported unsent was delivered, or the reverse"
 		}
 	}
+}
+
+// positiveTimeoutOnPath: the path has established timeout > 0 (timeout - k > 0 for some k >= 0).
+func positiveTimeoutOnPath(p *Path, timeout *Term) bool {
+	tp := ToPoly(timeout)
+	for _, cd := range p.Conds {
+		if pl, kind, isInt := cd.Rel().IntNorm(); isInt && kind == ">" {
+			if k, isC := tp.Add(pl, -1).IsConst(); isC && k >= 0 {
+				return true
+			}
+		}
+	}
+	return false
 }
